@@ -82,6 +82,8 @@ var c13AllKinds = []c13Kind{c13String, c13Int, c13Float, c13Float32, c13Bool, c1
 type c13Field struct {
 	Name string  `json:"name"`
 	Kind c13Kind `json:"kind"`
+	// Default, when set, is the argument list of a @default directive, e.g. `int: 7` (used by C18)
+	Default string `json:"default,omitempty"`
 }
 
 func (f c13Field) sdl() string {
@@ -90,6 +92,9 @@ func (f c13Field) sdl() string {
 		return f.Name + ": R"
 	case c13Counter:
 		return f.Name + ": Int @crdt(type: pcounter)"
+	}
+	if f.Default != "" {
+		return f.Name + ": " + string(f.Kind) + " @default(" + f.Default + ")"
 	}
 	return f.Name + ": " + string(f.Kind)
 }
